@@ -154,6 +154,15 @@ class LoaderMonitor(Monitor):
         w = {"loader": fn, "source": ctx["source"], "input": ctx["input"]}
         kind, val = outcome
         valid = spec.is_unique(recs) and not any(spec.self_clash(r) for r in recs)
+        if any(spec.self_clash(r) for r in recs):
+            # C04: a single record can never list its own canonical prefix / URI prefix among its synonyms -
+            # whatever route the data took into the library
+            evaluated("loader-self-synonym")
+            evaluated("prop:C04")
+            if not (kind == "raise" and isinstance(val, ValueError)):
+                violation(["C04"], "loader-self-synonym", "loader-accepts-record-listing-its-own-canonical-value-as-synonym",
+                          denoted=dicts(recs), observed=val if kind == "raise" else dicts(spec.snapshot(val)), **w)
+            return
         if kind == "raise":
             if valid:
                 violation(["C13"], mon, "loader-rejects-valid-input", observed=val, denoted=dicts(recs), **w)
